@@ -12,6 +12,9 @@ import MM.Model.C08
     clean <maxAge>                                                      -> <removed> ; dump
     look <ip>                                                           -> none | route <entry>
     mlook <ip>                  the same through Manager.Lookup (what the agent's dial path calls)
+    mnext <ip>                  Manager.LookupNextHop                   -> none | next <peer>
+    mwd <origin> <ip> <ones> <bits>   mdisc <peer>   mclean <maxAge>    the removals through Manager.ProcessRouteWithdraw /
+                                HandlePeerDisconnect / CleanupStaleRoutes (same answers as rm / disc / clean)
     get <ip> <ones> <bits>                                              -> none | route <entry>
     lookall <ip>                                                        -> routes <entry>*   (Table.LookupAll)
     has <ip> <ones> <bits> <origin>                                     -> true|false
@@ -153,6 +156,20 @@ def step (st : St) (line : String) : St × String :=
     | some n => (st, toString (hasRoute t (cidrKey n) (natTok orig)))
   | ["size"] => (st, s!"size {size t} {totalRoutes t}")
   | ["clear"] => ({ st with s := ⟨now, []⟩ }, "ok ; empty")
+  | ["next", ip] =>
+    match parseIP ip with
+    | none => (st, "bad-op")
+    | some a =>
+      match lookup t a with
+      | none => (st, "none")
+      | some r =>
+        -- next hop of the first entry of the winning slice: of any entry of its first run
+        match runsOf (get t (eff r.pay)) with
+        | [] => (st, "none")
+        | run :: _ =>
+          match sortStrs ((run.map fun e => s!"next {e.nextHop}").eraseDups) with
+          | [x] => (st, x)
+          | xs => (st, "anyof " ++ " | ".intercalate xs)
   | _ => (st, "bad-op")
 
 /-! ### concurrent ops: every serial order -/
@@ -196,6 +213,10 @@ def raceRun {σ : Type} (step : σ → String → σ × String) (st : σ) (line 
 def unalias (line : String) : String :=
   match tokens line with
   | ["mlook", ip] => s!"look {ip}"
+  | ["mnext", ip] => s!"next {ip}"
+  | ["mwd", orig, ip, ones, bits] => s!"rm {ip} {ones} {bits} {orig}"
+  | ["mdisc", peer] => s!"disc {peer}"
+  | ["mclean", a] => s!"clean {a}"
   | _ => line
 
 /-- `step` plus the `race` op -/
@@ -335,6 +356,16 @@ def specStep (st : SpecSt) (l : String) : SpecSt × String :=
         match parseIP ip with
         | some a => (st, specLookup tab a (tokens out))
         | none => (st, "bad-op")
+      | ["mnext", ip] =>
+        -- the next hop must be that of a stored route which is an admissible Lookup answer
+        match parseIP ip, tokens out with
+        | some a, ["none"] => (st, specLookup tab a ["none"])
+        | some a, ["next", nh] =>
+          if tab.any (fun e => e.nextHop == natTok nh && contains e.pay a &&
+              !tab.any (fun e' => contains e'.pay a && (decide (plen e'.pay > plen e.pay) ||
+                (plen e'.pay == plen e.pay && decide (e'.metric < e.metric))))) then (st, "ok")
+          else (st, "fail lpm-next-hop")
+        | _, _ => (st, "fail unparsable-answer")
       | ["lookall", ip] =>
         match parseIP ip with
         | some a => (st, specLookAll tab a (tokens out))
